@@ -12,7 +12,7 @@ OBLIGATIONS = [
     "PgmVerif.C18_same_equiv", "PgmVerif.C18_closure_extensive", "PgmVerif.C18_closure_closed",
     "PgmVerif.C18_ci_product_form", "PgmVerif.C18_iequiv_refl_symm", "PgmVerif.C18_closure_sound",
     "PgmVerif.C18_closure_semantically_sound", "PgmVerif.CI_decomposition", "PgmVerif.CI_weak_union", "PgmVerif.CI_contraction",
-    "PgmVerif.C18_ci_scale_invariant",
+    "PgmVerif.C18_ci_scale_invariant", "PgmVerif.C18_ci_unnormalised",
 ]
 PARTIAL = ["closure = semi-graphoid derivability: the model's closure is proved extensive, closed under the rule step and minimal (every member "
            "is derivable, C18_closure_sound) and semantically sound (C18_closure_semantically_sound: every member holds in every non-negative "
